@@ -155,13 +155,31 @@ def run(ctx, rep):
             calls.append((tuple(eng.purify(st, a) for a in args), fr.body.path))
         return None
 
+    ins_asm = []
+
     def hook_ins(eng, st, fr, t, ptr, k, v):
         inserts.append((eng.purify(st, k), eng.purify(st, v), fr.body.path))
+        ins_asm.append(dict(st.asm))
     eng.hooks['call'] = hook_call
     eng.hooks['map_insert'] = hook_ins
     args = eng.sym_args(rng_fn, ['params', 'location', 'date_range'])
     tree = eng.call_entry(rng_fn, args)
     rep.floor('result insertions in the range API', len(inserts), 1)
+    # every result is stored on a path that has looked at the extent of the range (its end or its day count): a date emitted
+    # before any such test is emitted for an empty range too
+    for (k_, v_, fn_), asm_ in zip(inserts, ins_asm):
+        sees = False
+        for c_ in asm_:
+            for x in subterms(c_):
+                if x and x[0] == 'app' and (x[1] == 'range_end' or x[1] == nd or x[1].endswith('DateRange::end_date')):
+                    sees = True
+                if x and x[0] == 'iterhas':
+                    sees = sees or any(y and y[0] == 'app' and y[1] == nd for y in subterms(x))
+        src_sym = k_[0] == 'iterval'       # a generic element of a bounded source: the bound is the source's business (R14.2 iteration)
+        rep.ob('R14.2', 'stored-only-inside-the-range', True if (sees or src_sym) else False,
+               'a result is stored only after the extent of the range was consulted' if (sees or src_sym) else
+               f'a result is stored under {show(k_, maxd=3)[:60]} on a path that never compared anything with the end of the range or its '
+               'day count: an empty range (end before start) gets an entry')
     if not calls:
         # the range API does not call the single-date API itself: every stored value must then be the single-date
         # API's own value term for the date it is stored under
